@@ -32,6 +32,27 @@ Theorem am_inverse :
 Proof. exact am_inverse_lemma. Qed.
 Print Assumptions am_inverse.
 
+(* the same law for whole lists (combined shells [0;1] = "sp", [0;1;2] = "spd", and lists of any length), by induction
+   over the list on top of the singleton sweep; and the converse: whatever letters -> integers accepts, integers ->
+   letters maps back to the lower-case spelling *)
+From BSE Require Proofs.AmList.
+Theorem am_list_inverse :
+  forall hij am, Forall (fun l => (0 <= l < Z.of_nat (String.length (amchar_map hij)))%Z) am ->
+    exists s, amint_to_char am hij false = inr s /\ String.length s = List.length am /\
+              amchar_to_int s hij = inr am /\ amchar_to_int (upper s) hij = inr am.
+Proof. exact AmList.am_list_inverse_lemma. Qed.
+Print Assumptions am_list_inverse.
+
+Theorem am_letters_inverse :
+  forall hij s am, amchar_to_int s hij = inr am -> amint_to_char am hij false = inr (lower s).
+Proof. exact AmList.am_letters_inverse_lemma. Qed.
+Print Assumptions am_letters_inverse.
+
+Example am_list_demo :
+  amint_to_char [0; 1; 2]%Z false false = inr "spd" /\ amchar_to_int "SPD" false = inr [0; 1; 2]%Z /\
+  amint_to_char [7]%Z false false = inr "k" /\ amint_to_char [7]%Z true false = inr "j".
+Proof. vm_compute. repeat split; reflexivity. Qed.
+
 Theorem am_supported_range : String.length amchar_map_hik = 25 /\ String.length amchar_map_hij = 26.
 Proof. exact am_sizes. Qed.
 Print Assumptions am_supported_range.
